@@ -144,6 +144,19 @@ def configs(tier):
                         for perm in ps:
                             out.append(dict(comp=comp, fault=fault, cause=cause, instant=instant,
                                             entry=entry, perm=perm))
+    # the stop is requested, and before the simulation task gets to its clean-up a slow callback
+    # keeps the CPU until a timer of the circuit is already due (but has not fired yet)
+    for comp in ('fsm', 'mix', 'repeat', 'valuepoll', 'outasync'):
+        nblk = len(comp_blocks(comp))
+        perms = list(itertools.permutations(range(nblk)))
+        for cause in ('shutdown', 'abort-exc', 'ctrl-shutdown', 'sigterm'):
+            for entry in ('run_forever', 'run'):
+                if cause == 'sigterm' and entry != 'run':
+                    continue
+                for hold in (8, 9, 20):
+                    for perm in (perms[0], perms[-1]):
+                        out.append(dict(comp=comp, fault=None, cause=cause, instant='cpu-hold',
+                                        entry=entry, perm=perm, hold=hold))
     if tier == 'thorough':
         # two injected faults (different sites), a reduced cause / instant set
         for comp in COMPS:
@@ -429,6 +442,14 @@ def run_case(cfg, acc):
                     if res['init_ok']:
                         await traffic()
                         await asyncio.sleep(1)
+                        if instant == 'cpu-hold' and not main.done() and circuit.error is None:
+                            # request the stop; the next callback to run holds the CPU
+                            if cause == 'shutdown':
+                                circuit.abort(asyncio.CancelledError('shutdown'))
+                            else:
+                                request_stop()
+                            loop.call_soon(loop.advance_us, cfg['hold'] * 1_000_000)
+                            loop._ready.rotate(1)       # ... before the simulation task resumes
                         if (cause != 'fault-only' and not main.done() and circuit.error is None
                                 and instant in INSTANTS):
                             if instant == 'cleanup':
